@@ -47,6 +47,19 @@ func contentPlan(prop string, tier string, root *simcore.RNG, sinks []string, nq
 		j.Name = pick(r, fileNames)
 		sc := &Scenario{Prop: prop, Family: "content", Seed: r.Uint64(), Env: genEnv(r), Groups: [][]Job{{j}},
 			Sites: activeSites(r, sink, false), Sched: genSched(r, []string{"consumer", "renderer"})}
+		// two exports into the same format at the same time (separate files)
+		if r.Intn(6) == 0 {
+			n2 := pick(r, []int{1, 40, 300, 900})
+			j2 := Job{ID: 9, Kind: kind, Sink: sink, N: n2, Coords: pick(r, []string{"wild-small", "index"}), CoordSeed: r.Uint64(),
+				Batches: genPartition(r, n2, 1, pick(r, []string{"small", "fives"}))}
+			sc.Groups[0] = append(sc.Groups[0], j2)
+			for _, s2 := range sinkSites(sink) {
+				sc.Sites[s2] = 1
+			}
+			if r.Intn(2) == 0 {
+				sc.Env.Race = true
+			}
+		}
 		// a history of exports in one process: the job is preceded or followed by
 		// other exports into the same format (other sizes, the empty list among them)
 		if r.Intn(3) == 0 {
